@@ -83,19 +83,21 @@ bool make_stack(Task& t, size_t stack_bytes, int id) {
   size_t sz = (stack_bytes + (size_t)pg - 1) & ~((size_t)pg - 1);
   if (sz < (size_t)PTHREAD_STACK_MIN) sz = (size_t)PTHREAD_STACK_MIN;
   t.map_len = sz + (size_t)pg;
-  t.map = (unsigned char*)mmap(nullptr, t.map_len, PROT_READ | PROT_WRITE, MAP_PRIVATE | MAP_ANONYMOUS, -1, 0);
+  t.map = (unsigned char*)mmap(nullptr, t.map_len, PROT_READ | PROT_WRITE, MAP_PRIVATE | MAP_ANONYMOUS | MAP_NORESERVE, -1, 0);
   if (t.map == MAP_FAILED) return false;
   mprotect(t.map, (size_t)pg, PROT_NONE);       // guard page below the stack
   g_guard_lo[id] = t.map; g_guard_hi[id] = t.map + pg;
-  memset(t.map + pg, 0xCB, sz);                 // paint, to measure use afterwards
   if (!t.alt) t.alt = (unsigned char*)malloc(1 << 16);
   return true;
 }
 size_t stack_used(const Task& t) {
+  // pages of a fresh anonymous mapping become resident only when touched: the lowest resident page bounds the use
   long pg = sysconf(_SC_PAGESIZE);
-  const unsigned char* lo = t.map + pg; const unsigned char* hi = t.map + t.map_len;
-  const unsigned char* p = lo; while (p < hi && *p == 0xCB) p++;
-  return (size_t)(hi - p);
+  size_t npages = (t.map_len - (size_t)pg) / (size_t)pg;
+  std::vector<unsigned char> vec(npages);
+  if (mincore(t.map + pg, npages * (size_t)pg, vec.data()) != 0) return t.map_len;
+  size_t first = 0; while (first < npages && !(vec[first] & 1)) first++;
+  return (npages - first) * (size_t)pg;
 }
 }  // namespace
 
